@@ -8,7 +8,8 @@
 //! Ops: `c07_scan <v> <S> <majLo> <majHi> <minLo> <minHi> <tx>`; `c07_scan_pb <v> <S> <ranges×4> <prefix> <base>` with
 //! `<base>` = `none` | `<type>:<ecdh,…|->:<commitment,…|->`; `c08_open <v> <S> <R> <n> <ecdh> <commitment>` -> `none` |
 //! `ok <amount> <mask>`; `c07_scenario <seed> <ranges×4> <ver> <rct> <main> <extra> <T> <fill> <out>…` -> `<h> <scan result>`
-//! (grammar: see Drv/C07.lean; the transaction is built here by `build`, `<h>` = Keccak(prefix ‖ base)[0..8]).
+//! (grammar: see Drv/C07.lean; the transaction is built here by `build`, `<h>` = Keccak(prefix ‖ base)[0..8]; extra letters `S` / `L` =
+//! additional-key list one key short / one key too long; "corrupt" letters `0` / `1` / `L` = legacy mask forced to 0 / 1 / l-1).
 //! Entries end with `:<output key>/<view tag|->/<clear amount>` (`OwnedTxOut::out()`); `c08_open` prints the recomputed commitment
 //! (`Opening::commitment`, compressed) as third field. `c07_check <v> <S> <ranges×4> <n> <P> <R>` -> `none` | `<major>/<minor>`:
 //! `SubKeyChecker::check` and `check_with_key_generator` on a checker built by `SubKeyChecker::new` (`CHECK-DIFFER` if the two
@@ -149,6 +150,8 @@ fn tag_byte(c: char, right: u8) -> Option<u8> {
         'z' => Some(if right == 0 { 128 } else { 0 }), 'f' => Some(if right == 255 { 127 } else { 255 }), _ => Some(right) }
 }
 fn tag_is_wrong(c: char) -> bool { matches!(c, 'w' | 'v' | 'x' | 'y' | 'z' | 'f') }
+/// "corrupt" letters that corrupt nothing: the sender's mask (legacy types; the compact mask is derived) is forced to 0 / 1 / l-1
+fn forced_mask(c: char) -> Option<Scalar> { match c { '0' => Some(Scalar::ZERO), '1' => Some(Scalar::ONE), 'L' => Some(-Scalar::ONE), _ => None } }
 /// the point of the main transaction key the sender publishes: r·G or r·S'(main_sub), plus main_tors·T
 fn main_point(h: &Hdr, v: &Scalar, S: &EdwardsPoint) -> EdwardsPoint {
     let base = match h.main_sub { None => G, Some((i, j)) => dest_at(v, S, i, j).spend };
@@ -185,7 +188,7 @@ fn build_out(h: &Hdr, v: &Scalar, S: &EdwardsPoint, pos: u32, o: &OutD) -> Built
             // deriv `b<k>`: main secret, and the additional key at this position is the main key plus k·T (same derivation, k > 0: other bytes)
             let add_key = if r.own { enc(&torsion(&h.T, r.tors, if d.sub { secret * d.spend } else { secret * G })) }
                 else if let Some(k) = r.both { enc(&torsion(&h.T, k, main_point(h, v, S))) } else { unrelated_add() };
-            let y = if h.compact() { compact_mask(&k) } else { sc(&h.seed, 'y', pos) };
+            let y = if h.compact() { compact_mask(&k) } else { forced_mask(r.corrupt).unwrap_or_else(|| sc(&h.seed, 'y', pos)) };
             let C = enc(&commitment(&y, r.amount));
             let ecdh = if h.legacy() {
                 let (m, a) = legacy_encode(&k, &y, r.amount);
@@ -197,7 +200,7 @@ fn build_out(h: &Hdr, v: &Scalar, S: &EdwardsPoint, pos: u32, o: &OutD) -> Built
             let comm = if h.ringct() { if r.corrupt == 'c' { flip0(C) } else { C } } else { h.fill };
             let recognisable = r.shift == 0 && r.corrupt != 't' && !tag_is_wrong(r.tag) && idx.map(|i| h.in_range(i)).unwrap_or(false);
             Built { amount: if h.ringct() { if r.corrupt == 'a' { 77 + pos as u64 } else { 0 } } else { r.amount }, key, tag, add_key, ecdh, comm,
-                expect: if recognisable { idx.map(|i| (i, r.own, y, C)) } else { None }, corrupt: h.ringct() && r.corrupt != '-' && r.corrupt != 'a' && r.corrupt != 't' }
+                expect: if recognisable { idx.map(|i| (i, r.own, y, C)) } else { None }, corrupt: h.ringct() && r.corrupt != '-' && r.corrupt != 'a' && r.corrupt != 't' && forced_mask(r.corrupt).is_none() }
         }
     }
 }
@@ -218,6 +221,9 @@ fn build(h: &Hdr, outs: &[OutD]) -> BuiltTx {
             'A' => { extra.push(4); extra.extend(varint(n as u64)); for b in &bs { extra.extend(b.add_key); } }
             'H' => { extra.push(4); extra.extend(varint((n / 2) as u64)); for b in &bs[..n / 2] { extra.extend(b.add_key); } }
             'B' => { extra.push(4); extra.extend(varint(n as u64)); for i in 0..n { extra.extend(enc(&(sc(&h.seed, 'b', i as u32) * G))); } }
+            // additional-key lists whose length differs from the number of outputs: one key short / one (unrelated) key more
+            'S' => { let m = n.saturating_sub(1); extra.push(4); extra.extend(varint(m as u64)); for b in &bs[..m] { extra.extend(b.add_key); } }
+            'L' => { extra.push(4); extra.extend(varint(n as u64 + 1)); for b in &bs { extra.extend(b.add_key); } extra.extend(enc(&(sc(&h.seed, 'b', n as u32) * G))); }
             'N' => extra.extend([2, 3, 1, 2, 3]),
             'Z' => extra.push(7),
             'P' => extra.extend([0, 0, 0]),
@@ -225,7 +231,7 @@ fn build(h: &Hdr, outs: &[OutD]) -> BuiltTx {
         }
     }
     let first_key_is_senders = h.extra.iter().find(|c| **c == 'K' || **c == 'Q').map(|c| *c == 'K');
-    let add_cover = match h.extra.iter().find(|c| **c == 'A' || **c == 'H' || **c == 'B') { Some('A') => n, Some('H') => n / 2, _ => 0 };
+    let add_cover = match h.extra.iter().find(|c| matches!(**c, 'A' | 'H' | 'B' | 'S' | 'L')) { Some('A') | Some('L') => n, Some('H') => n / 2, Some('S') => n.saturating_sub(1), _ => 0 };
     BuiltTx { outs: bs, main_key, extra, first_key_is_senders, add_cover }
 }
 fn entry(pos: usize, idx: (u32, u32), key: &[u8], amount: Option<u64>, mask: Option<&Scalar>, comm: Option<&[u8]>, b: &Built) -> String {
@@ -618,6 +624,122 @@ fn family_check(o: &mut Out, rng: &mut Rng, thorough: bool) {
     }
 }
 
+
+// ---------------------------------------------------------------- families requested after the review of the seeded changes
+/// the serialized transaction (where a serialization with a dummy prunable part exists) through `c07_scan`, deterministically
+fn wire_scan(o: &mut Out, s: &Scen, line: &str, kind: &str) {
+    let ty = match &s.base { None => Some(0u8), Some(b) => base_text(&Some(b.clone())).split(':').next().unwrap().parse().ok() };
+    let wire = match (&s.base, ty.and_then(|t| dummy_prunable(t, s.prefix.outputs.len()))) {
+        (None, _) => Some(serialize(&s.prefix)),
+        (Some(b), Some(p)) => Some(cat(&[&serialize(&s.prefix), &serialize(b), &p])),
+        _ => None,
+    };
+    match wire {
+        Some(w) if deserialize::<Transaction>(&w).is_ok() => {
+            let got = o.op(format!("c07_scan {} {} {} {} {} {} {}", hex(s.vp.view.as_bytes()), hex(s.vp.spend.as_bytes()), s.r[0], s.r[1], s.r[2], s.r[3], hex(&w)), true);
+            o.direct(got == s.expected, "scan of the serialized transaction = expected owned set", trunc(line, 300), trunc(&got, 300), trunc(&s.expected, 300));
+            o.stat(&format!("{}:wire", kind));
+        }
+        _ => o.stat(&format!("{}:not-serializable", kind)),
+    }
+}
+fn owned_count(expected: &str) -> Option<usize> { let t: Vec<&str> = expected.split(' ').collect(); if t.len() >= 2 && t[0] == "ok" { t[1].parse().ok() } else { None } }
+fn owned_positions(expected: &str) -> Vec<usize> { expected.split(' ').skip(2).filter_map(|e| e.split(':').next()?.parse().ok()).collect() }
+/// requested (4a): ranges `0..1 × 0..1` (only the primary address is looked for) and outputs addressed to the PRIMARY address through
+/// the per-output ADDITIONAL key — they must be reported (additional keys are not a subaddress-only matter)
+fn family_primary_via_additional(o: &mut Out, rng: &mut Rng, thorough: bool) {
+    for it in 0..(if thorough { 12 } else { 2 }) {
+        let (ver, rct) = RCTS[rng.below(RCTS.len() as u64) as usize];
+        let am = rng.u64_boundary();
+        let main = *rng.pick(&["g", "s1/1", "g+2", "s0/1"]);
+        let extra = if it % 2 == 0 { "KA" } else { *rng.pick(&["NKAP", "QKA", "KAB", "ZKA", "AK"]) };
+        let mut outs = vec![format!("P.a.{}.0.{}", rng.pick(&['t', 'n']), am), "X".to_string(), format!("S0/1.a.t.0.{}", am ^ 1),
+            format!("P.a{}.n.0.{}", rng.range(1, 7), am ^ 2), "F.a.t.0.9".to_string(), format!("P.a.t.0.{}", am ^ 4)];
+        let k = rng.below(outs.len() as u64) as usize; outs.rotate_left(k);
+        let line = scen_line(rng, [0, 1, 0, 1], ver, rct, main, extra, CHEAP_FILL, &outs);
+        if let Some(s) = run_scenario_only(o, line.clone(), "primary-via-additional") {
+            o.direct(owned_count(&s.expected) == Some(3), "family invariant: the three primary-address outputs sent through additional keys are expected", trunc(&line, 300), s.expected.clone(), "ok 3 …".into());
+            if it % 2 == 0 { wire_scan(o, &s, &line, "primary-via-additional"); }
+        }
+    }
+}
+/// requested (4b): the FIRST output carries a view tag and is not ours while a later output WITHOUT a tag is ours (and the reverse);
+/// every scan goes through `TransactionPrefix::check_outputs`, `check_outputs_with` and the two `Transaction` entry points (`scan3`)
+fn family_mixed_tags(o: &mut Out, rng: &mut Rng, thorough: bool) {
+    for it in 0..(if thorough { 12 } else { 2 }) {
+        let (ver, rct) = RCTS[rng.below(RCTS.len() as u64) as usize];
+        let am = rng.u64_boundary();
+        let tagged_first = thorough && it % 4 == 3;
+        let (kind, outs) = if !tagged_first || !thorough {
+            // first: tagged, not ours (foreign through the main key / ours with a wrong tag / foreign through its additional key)
+            let first = match (it + rng.below(3) as usize) % 3 { 0 => format!("F.m.t.0.{}", am), 1 => format!("P.m.{}.0.{}", rng.pick(&WRONG_TAGS), am), _ => format!("F.a.t.0.{}", am) };
+            ("mixed-tags:tagged-foreign-first", vec![first, "X".to_string(), format!("P.m.n.0.{}", am ^ 1), format!("S1/2.a.n.0.{}", am ^ 2), format!("S0/1.a.t.0.{}", am ^ 3), format!("P.m.n.0.{}", am ^ 5)])
+        } else {
+            // the reverse: first untagged and not ours, later tagged ones are ours
+            ("mixed-tags:untagged-foreign-first", vec![format!("F.m.n.0.{}", am), "X".to_string(), format!("P.m.t.0.{}", am ^ 1), format!("S1/2.a.t.0.{}", am ^ 2), format!("S0/1.a.n.0.{}", am ^ 3), format!("P.m.t.0.{}", am ^ 5)])
+        };
+        let extra = *rng.pick(&["KA", "KA", "NKAP"]);
+        let line = scen_line(rng, [0, 3, 0, 4], ver, rct, "g", extra, CHEAP_FILL, &outs);
+        if let Some(s) = run_scenario_only(o, line.clone(), kind) {
+            o.direct(owned_count(&s.expected) == Some(4), "family invariant: the four outputs of this wallet behind the foreign first output are expected", trunc(&line, 300), s.expected.clone(), "ok 4 …".into());
+            if it % 2 == 1 { wire_scan(o, &s, &line, "mixed-tags"); }
+        }
+    }
+}
+/// requested (4c): additional-key lists with FEWER / MORE keys than outputs (extra letters `S`: n-1 keys, `L`: n+1 keys; 2 or 4 keys for 3
+/// outputs) — an owned output is found through the additional key AT ITS OWN POSITION, and not at all when the list ends before it
+fn family_addkey_count(o: &mut Out, rng: &mut Rng, thorough: bool) {
+    let mut cases: Vec<(&str, usize, usize)> = vec![];   // extra, number of outputs, owned position
+    if thorough { for e in ["KS", "KL", "SK", "NKLP", "QKS", "KLB"] { for pos in 0..3 { cases.push((e, 3, pos)); } } cases.push(("KS", 5, 3)); cases.push(("KS", 5, 4)); cases.push(("KL", 5, 4)); cases.push(("KS", 1, 0)); cases.push(("KL", 1, 0)); }
+    else { cases = vec![("KS", 3, rng.below(2) as usize), ("KS", 3, 2), ("KL", 3, 2)]; }
+    for (extra, n, pos) in cases {
+        let (ver, rct) = RCTS[rng.below(RCTS.len() as u64) as usize];
+        let am = rng.u64_boundary();
+        let mut outs = vec!["X".to_string(); n];
+        outs[pos] = if rng.chance(1, 2) { format!("S0/1.a.{}.0.{}", rng.pick(&['t', 'n']), am) } else { format!("P.a{}.{}.0.{}", rng.below(3), rng.pick(&['t', 'n']), am) };
+        if n > 1 { outs[(pos + 1) % n] = format!("P.m.n.0.{}", am ^ 1); }
+        let line = scen_line(rng, [0, 3, 0, 4], ver, rct, "g", extra, CHEAP_FILL, &outs);
+        if let Some(s) = run_scenario_only(o, line.clone(), &format!("addkey-count:{}", if extra.contains('S') { "short" } else { "long" })) {
+            let covered = if extra.contains('S') { pos < n - 1 } else { true };
+            let has = owned_positions(&s.expected).contains(&pos);
+            o.direct(has == covered, "family invariant: the output sent through its additional key is expected iff the list reaches its position", trunc(&line, 300), s.expected.clone(), format!("position {} {}", pos, if covered { "reported" } else { "not reported" }));
+            o.stat(if covered { "addkey-count:covered" } else { "addkey-count:beyond-list" });
+        }
+    }
+}
+/// requested (5): a TAGGED output owned through its ADDITIONAL key whose tag ALSO equals the tag computed from the MAIN transaction key
+/// (the seed is ground until the two first hash bytes collide, ~256 tries): the main key passes the tag test, fails the key test, and the
+/// output must still be reported through the additional key
+fn family_tag_collision(o: &mut Out, rng: &mut Rng, thorough: bool) {
+    for it in 0..(if thorough { 6 } else { 1 }) {
+        let pos = (it % 3) as u32;
+        let (i, j) = *rng.pick(&[(0u32, 0u32), (0, 1), (1, 2)]);
+        let mut tries = 0u32;
+        let seed = loop {
+            tries += 1;
+            let seed = rng.bytes(8);
+            let v = sc(&seed, 'v', 0); let S = sc(&seed, 's', 0) * G; let r = sc(&seed, 'r', 0); let a = sc(&seed, 'a', pos);
+            let d = dest_at(&v, &S, i, j);
+            let tag_add = view_tag(&derivation(&a, &d.view), pos as u64);
+            let tag_main = view_tag(&derivation(&v, &(r * G)), pos as u64);
+            if tag_add == tag_main { break Some(seed); }
+            if tries >= 20000 { break None; }
+        };
+        let seed = match seed { Some(s) => s, None => { o.notes.push("tag-collision: no colliding seed within 20000 tries".into()); continue; } };
+        o.stat_n("tag-collision:tries", tries as u64);
+        let (ver, rct) = RCTS[rng.below(RCTS.len() as u64) as usize];
+        let am = rng.u64_boundary();
+        let mut outs: Vec<String> = (0..pos).map(|_| "X".to_string()).collect();
+        outs.push(format!("{}.a.t.0.{}", if (i, j) == (0, 0) { "P".to_string() } else { format!("S{}/{}", i, j) }, am));
+        outs.push(format!("P.m.t.0.{}", am ^ 1));
+        let line = format!("c07_scenario {} 0 3 0 4 {} {} g KA {} {} {}", hex(&seed), ver, rct, hex(&enc(&EIGHT_TORSION[1])), CHEAP_FILL, outs.join(" "));
+        if let Some(s) = run_scenario_only(o, line.clone(), "tag-collision") {
+            o.direct(owned_positions(&s.expected) == vec![pos as usize, pos as usize + 1], "family invariant: the additional-key output whose tag collides with the main-key tag is expected", trunc(&line, 300), s.expected.clone(), format!("ok 2 at {} and {}", pos, pos + 1));
+            if it % 2 == 0 { wire_scan(o, &s, &line, "tag-collision"); }
+        }
+    }
+}
+
 pub fn run_c07(o: &mut Out, tier: &str, seed: u64) {
     let mut rng = Rng::new(seed ^ 0xc07);
     let thorough = tier == "thorough";
@@ -639,6 +761,12 @@ pub fn run_c07(o: &mut Out, tier: &str, seed: u64) {
         let outs = vec!["g.65534".to_string(), "S0/1.a.t.0.5".to_string(), "P.m.n.0.7".to_string(), "g.2".to_string(), "S1/2.a3.n.0.9".to_string()];
         run_scenario_only(o, scen_line(&mut rng, [0, 3, 0, 4], 2, "6", "g", "KA", CHEAP_FILL, &outs), "cross-65536");
     }
+    // families requested after the review of the seeded changes (own generator stream again)
+    let mut rng = Rng::new(seed ^ 0xc07_b0d2);
+    family_primary_via_additional(o, &mut rng, thorough);
+    family_mixed_tags(o, &mut rng, thorough);
+    family_addkey_count(o, &mut rng, thorough);
+    family_tag_collision(o, &mut rng, thorough);
     o.notes.push("every scan result is the agreement of Transaction::check_outputs, TransactionPrefix::check_outputs(Some(&base)), check_outputs_with(pre-built SubKeyChecker) on prefix and on transaction (APIS-DIFFER otherwise)".into());
     o.notes.push("non-trivial = every scenario (each has at least one sender-built output); positions cross 128 / 16384 by filler runs of undecodable keys".into());
 }
@@ -785,6 +913,127 @@ fn family_two_wallets(o: &mut Out, rng: &mut Rng, thorough: bool) {
     }
 }
 
+
+/// requested (1): TWO OR MORE owned outputs whose on-chain commitments are exchanged with each other, or shifted by +D / -D (D = δ·H: the
+/// amounts move; D = d·G: the masks move; D random) so that their SUM is unchanged: every one of them fails to open, the scan is
+/// `Err(InvalidCommitment)` — a per-transaction check of the summed commitments would accept all of these
+fn family_commitment_shuffle(o: &mut Out, rng: &mut Rng, thorough: bool) {
+    let rcts: Vec<u64> = if thorough { (1..=6).collect() } else { vec![*rng.pick(&[1u64, 2, 3]), *rng.pick(&[4u64, 5, 6])] };
+    for rct in rcts {
+        let am: Vec<u64> = (0..3).map(|_| if rng.chance(1, 3) { 7 } else { rng.u64_boundary() }).collect();
+        let descr = vec![format!("P.m.t.0.{}", am[0]), "X".to_string(), format!("S1/2.a.n.0.{}", am[1]), format!("S0/1.a.t.0.{}", am[2])];
+        let line = scen_line(rng, [0, 3, 0, 4], 2, &rct.to_string(), "g", "KA", CHEAP_FILL, &descr);
+        let toks: Vec<&str> = line.split(' ').collect();
+        let s = match run_scenario_only(o, line.clone(), "c08:commitment-shuffle") { Some(s) => s, None => continue };
+        if owned_count(&s.expected) != Some(3) { o.direct(false, "family invariant: three owned outputs expected", trunc(&line, 300), s.expected.clone(), "ok 3 …".into()); continue; }
+        let (h, outs) = parse_scenario(&toks[1..]).unwrap();
+        let bt = build(&h, &outs);
+        let owned = [0usize, 2, 3];
+        let pt = |p: usize| CompressedEdwardsY(bt.outs[p].comm).decompress().unwrap();
+        let d_h = Scalar::from(if rng.chance(1, 2) { 1 } else { rng.range(1, u64::MAX - 1) }) * H();
+        let d_g = Scalar::from_bytes_mod_order(rng.arr32()) * G;
+        let d_r = Scalar::from_bytes_mod_order(rng.arr32()) * G + Scalar::from_bytes_mod_order(rng.arr32()) * H();
+        let (x, y) = { let k = rng.below(3) as usize; (owned[k], owned[(k + 1) % 3]) };
+        // (name, [(position, new commitment)])
+        let mut variants: Vec<(&str, Vec<(usize, EdwardsPoint)>)> = vec![
+            ("swap", vec![(x, pt(y)), (y, pt(x))]),
+            ("shift-amounts", vec![(x, pt(x) + d_h), (y, pt(y) - d_h)]),
+            ("shift-masks", vec![(x, pt(x) + d_g), (y, pt(y) - d_g)]),
+        ];
+        if thorough {
+            variants.push(("rotate", vec![(0, pt(2)), (2, pt(3)), (3, pt(0))]));
+            variants.push(("shift-random", vec![(x, pt(x) - d_r), (y, pt(y) + d_r)]));
+            variants.push(("shift-three", vec![(0, pt(0) + d_h), (2, pt(2) + d_g), (3, pt(3) - d_h - d_g)]));
+            variants.push(("swap-first-last", vec![(0, pt(3)), (3, pt(0))]));
+        }
+        let base = s.base.clone().unwrap();
+        let head = format!("c07_scan_pb {} {} {} {} {} {} {}", hex(s.vp.view.as_bytes()), hex(s.vp.spend.as_bytes()), s.r[0], s.r[1], s.r[2], s.r[3], hex(&serialize(&s.prefix)));
+        let sum0: EdwardsPoint = base.out_pk.iter().filter_map(|k| CompressedEdwardsY(k.mask.key).decompress()).fold(EdwardsPoint::identity(), |a, b| a + b);
+        for (name, changes) in &variants {
+            let mut b = base.clone();
+            for (p, c) in changes { b.out_pk[*p] = CtKey { mask: Key { key: enc(c) } }; }
+            let sum1: EdwardsPoint = b.out_pk.iter().filter_map(|k| CompressedEdwardsY(k.mask.key).decompress()).fold(EdwardsPoint::identity(), |a, b| a + b);
+            let differs = changes.iter().all(|(p, c)| enc(c) != bt.outs[*p].comm);
+            o.direct(sum0 == sum1 && differs, "family invariant: the tampered commitments differ from the honest ones and have the same sum", format!("{} {}", name, trunc(&line, 200)), "-".into(), "-".into());
+            let got = o.op(format!("{} {}", head, base_text(&Some(b))), true);
+            o.direct(got == "err InvalidCommitment", "owned outputs whose commitments were exchanged / shifted with the sum preserved do not open: Err(InvalidCommitment)", format!("{} {}", name, trunc(&line, 300)), trunc(&got, 300), "err InvalidCommitment".into());
+            o.stat(&format!("c08:commitment-shuffle:{}", name));
+            // … and each of the tampered outputs on its own through EcdhInfo::open_commitment
+            for (p, c) in changes.iter().take(if thorough { 3 } else { 1 }) {
+                let R = if *p == 0 { bt.main_key } else { bt.outs[*p].add_key };
+                let e = match bt.outs[*p].ecdh.as_ref().unwrap() { EcdhInfo::Standard { mask, amount } => hex(&cat(&[&mask.key, &amount.key])), EcdhInfo::Bulletproof { amount } => hex(&amount.0) };
+                let got = o.op(format!("c08_open {} {} {} {} {} {}", hex(s.vp.view.as_bytes()), hex(s.vp.spend.as_bytes()), hex(&R), p, e, hex(&enc(c))), true);
+                o.direct(got == "none", "open_commitment of an owned output against another output's / a shifted commitment does not open", format!("{} pos {} {}", name, p, trunc(&line, 200)), got, "none".into());
+                o.stat("c08:commitment-shuffle:open");
+            }
+        }
+    }
+}
+/// requested (2): sender-built outputs with boundary masks and amounts through SCANS (the scan decompresses the on-chain commitment itself):
+/// legacy types with mask ∈ {0, 1, l-1} × amount ∈ {0, 1, 2^64-1} — amount 0 with mask 0 makes the commitment the IDENTITY, amount 0 / mask 1
+/// the base point, amount 1 / mask 0 the point H — all nine must open; compact types with the three amounts
+fn family_boundary_masks(o: &mut Out, rng: &mut Rng, thorough: bool) {
+    let rcts: Vec<u64> = if thorough { vec![1, 2, 3] } else { vec![*rng.pick(&[1u64, 3])] };
+    for rct in rcts {
+        for via_add_first in if thorough { vec![false, true] } else { vec![rng.chance(1, 2)] } {
+            let mut outs = vec![];
+            for (mi, m) in ['0', '1', 'L'].iter().enumerate() { for (ai, a) in [0u64, 1, u64::MAX].iter().enumerate() {
+                let via_add = ((mi + ai) % 2 == 1) != via_add_first;
+                let tag = *rng.pick(&['t', 'n']);
+                outs.push(if via_add { format!("S{}/{}.a.{}.0.{}.{}", rng.below(2), 1 + rng.below(2), tag, a, m) } else { format!("P.m.{}.0.{}.{}", tag, a, m) });
+            } }
+            let at = rng.below(outs.len() as u64 + 1) as usize; outs.insert(at, "X".to_string());
+            let line = scen_line(rng, [0, 3, 0, 4], 2, &rct.to_string(), "g", "KA", CHEAP_FILL, &outs);
+            if let Some(s) = run_scenario_only(o, line.clone(), &format!("c08:boundary-masks:rct{}", rct)) {
+                o.direct(owned_count(&s.expected) == Some(9), "family invariant: nine owned outputs (mask 0/1/l-1 × amount 0/1/2^64-1) with their openings expected", trunc(&line, 300), trunc(&s.expected, 200), "ok 9 …".into());
+                let identity = hex(&enc(&EdwardsPoint::identity()));
+                o.direct(s.expected.contains(&format!(":0:{}:{}:", hex(Scalar::ZERO.as_bytes()), identity)), "family invariant: amount 0 with mask 0 is expected with the identity as commitment", trunc(&line, 300), trunc(&s.expected, 200), "…:0:00…:0100…:…".into());
+                wire_scan(o, &s, &line, "c08:boundary-masks");
+                // the identity commitment (amount 0, mask 0) in NON-CANONICAL dress on chain (x = "-0"; y = p + 1): dalek decompresses both to
+                // the identity, the output opens and the reported commitment is the canonical encoding (audit C08 §4.6)
+                let zero_pos = if at == 0 { 1 } else { 0 };
+                let base = s.base.clone().unwrap();
+                let head = format!("c07_scan_pb {} {} {} {} {} {} {}", hex(s.vp.view.as_bytes()), hex(s.vp.spend.as_bytes()), s.r[0], s.r[1], s.r[2], s.r[3], hex(&serialize(&s.prefix)));
+                let dresses = ["0100000000000000000000000000000000000000000000000000000000000080", "eeffffffffffffffffffffffffffffffffffffffffffffffffffffffffffff7f"];
+                for d in if thorough { dresses.to_vec() } else { vec![*rng.pick(&dresses)] } {
+                    let mut b = base.clone();
+                    let was = hex(&b.out_pk[zero_pos].mask.key);
+                    b.out_pk[zero_pos] = CtKey { mask: Key { key: unhex(d).try_into().unwrap() } };
+                    let got = o.op(format!("{} {}", head, base_text(&Some(b))), true);
+                    o.direct(was == identity && got == s.expected, "an identity commitment in non-canonical encoding on chain opens like the canonical one (reported commitment canonical)", format!("{} {}", d, trunc(&line, 300)), trunc(&got, 300), trunc(&s.expected, 300));
+                    o.stat("c08:boundary-masks:noncanonical-identity");
+                }
+            }
+        }
+    }
+    for rct in if thorough { vec![4u64, 5, 6] } else { vec![*rng.pick(&[4u64, 5, 6])] } {
+        let outs = vec![format!("P.m.t.0.{}", 0), format!("S0/1.a.n.0.{}", 1), "X".to_string(), format!("S1/2.a.t.0.{}", u64::MAX), format!("P.m.n.0.{}", u64::MAX)];
+        let line = scen_line(rng, [0, 3, 0, 4], 2, &rct.to_string(), "g", "KA", CHEAP_FILL, &outs);
+        if let Some(s) = run_scenario_only(o, line.clone(), &format!("c08:boundary-amounts:rct{}", rct)) {
+            o.direct(owned_count(&s.expected) == Some(4), "family invariant: four owned outputs expected", trunc(&line, 300), trunc(&s.expected, 200), "ok 4 …".into());
+            if thorough { wire_scan(o, &s, &line, "c08:boundary-amounts"); }
+        }
+    }
+}
+/// requested (3): a version-2 coinbase-style transaction (one `Gen` input, RingCT type Null) — and the other transactions without RingCT
+/// data — whose owned outputs have the CLEAR amount 0: the amount is reported as unknown (`None`), next to non-zero ones reported as such
+fn family_null_zero(o: &mut Out, rng: &mut Rng, thorough: bool) {
+    let mut kinds: Vec<(u64, &str)> = vec![(2, "0")];
+    if thorough { for _ in 0..3 { kinds.extend([(2, "0"), (2, "n"), (1, "n")]); } } else { kinds.push(*rng.pick(&[(2u64, "n"), (1, "n")])); }
+    for (ver, rct) in kinds {
+        let am = loop { let a = rng.u64_boundary(); if a != 0 { break a; } };
+        let mut outs = vec![format!("P.m.{}.0.0", rng.pick(&['t', 'n'])), "X".to_string(), format!("S0/1.a.n.0.{}", am), format!("S1/2.a.t.0.0"), format!("P.m.n.0.0")];
+        if rng.chance(1, 2) { outs.swap(0, 2); }
+        let line = scen_line(rng, [0, 3, 0, 4], ver, rct, "g", "KA", CHEAP_FILL, &outs);
+        if let Some(s) = run_scenario_only(o, line.clone(), &format!("c08:clear-zero:v{}:rct{}", ver, rct)) {
+            let unknown = s.expected.split(' ').skip(2).filter(|e| e.split(':').nth(3) == Some("none")).count();
+            let known = s.expected.split(' ').skip(2).filter(|e| e.split(':').nth(3) == Some(am.to_string().as_str())).count();
+            o.direct(owned_count(&s.expected) == Some(4) && unknown == 3 && known == 1, "family invariant: three owned outputs with clear amount 0 are expected with an unknown amount, one with its non-zero amount", trunc(&line, 300), trunc(&s.expected, 300), "ok 4, three `none`".into());
+            wire_scan(o, &s, &line, "c08:clear-zero");
+        }
+    }
+}
+
 pub fn run_c08(o: &mut Out, tier: &str, seed: u64) {
     let mut rng = Rng::new(seed ^ 0xc08);
     let thorough = tier == "thorough";
@@ -920,6 +1169,11 @@ pub fn run_c08(o: &mut Out, tier: &str, seed: u64) {
             o.stat(if legacy { "position-boundary:legacy" } else { "position-boundary:compact" });
         }
     }
+    // families requested after the review of the seeded changes (own generator stream again)
+    let mut rng = Rng::new(seed ^ 0xc08_b0d2);
+    family_commitment_shuffle(o, &mut rng, thorough);
+    family_boundary_masks(o, &mut rng, thorough);
+    family_null_zero(o, &mut rng, thorough);
     o.notes.push("c08_open roundtrips: (amount, mask, secret) × {legacy, compact}, amounts 0, 2^k-1, 2^k, 2^k+1, 2^64-1; corrupt: one flipped bit in ecdh / commitment, non-canonical commitment encodings, commitment to another amount".into());
 }
 
